@@ -12,7 +12,7 @@
 From Coq Require Import NArith List String Bool Lia.
 From Coq Require Import Strings.Byte.
 From PDL Require Import Base.Bits Base.Outcome Lang.Ast Lang.Sexp Analyzer.Schema Sem.RefEncode Rust.Encode
-     Proofs.DecodeSafe Proofs.BitfieldEncode Proofs.EncodeSafe Proofs.SchemaEnums Proofs.EncodedLen.
+     Proofs.DecodeSafe Proofs.BitfieldEncode Proofs.EncodeSafe Proofs.SchemaEnums Proofs.EncodedLen Proofs.EncodeSafeAll.
 Import ListNotations.
 Open Scope N_scope.
 
@@ -108,3 +108,23 @@ Theorem C05_encoded_len_is_the_number_of_bytes_written_dynamic_structs :
     rust_encoded_len fuel fl sch id v = Some (len bs).
 Proof. exact rust_encode_len_dynamic_structs. Qed.
 Print Assumptions C05_encoded_len_is_the_number_of_bytes_written_dynamic_structs.
+
+(** ENCODE NEVER PANICS, all field kinds (Proofs/EncodeSafeAll.v): optional scalar / enum /
+    struct fields, flags, size / count / element-size fields, scalars, fixed fields, typedefs,
+    reserved bits, arrays with and without padding, payload / body, padding -- for ANY value
+    (in range, out of range, ill-typed), pending bit-fields and shift, provided the encoders
+    of nested struct types and the payload action do not panic at run time.  [arith_free]
+    excludes exactly the two places where the GENERATOR (a debug build of pdlc) overflows:
+    a 64-bit `_size_` / `_elementsize_` field (finding F44) and a condition value above 1. *)
+Theorem C05_no_runtime_panic_for_every_field_kind :
+  forall (fl : file) (sch : schema) (rec_enc : string -> value -> eres (list byte))
+         (rec_len : string -> value -> option N) (d : decl) (all_fields : list field)
+         (cs : list constr) (obj : list (string * value)) (payload_act : eres (list byte))
+         (payload_size : N),
+    (forall t v, no_rt_panic (rec_enc t v)) ->
+    no_rt_panic payload_act ->
+    forall (fs : list field) (p : pending) (shift : N),
+      forallb arith_free fs = true ->
+      no_rt_panic (enc_fields fl sch rec_enc rec_len d all_fields cs obj payload_act payload_size fs p shift).
+Proof. exact enc_fields_all_nrp. Qed.
+Print Assumptions C05_no_runtime_panic_for_every_field_kind.
